@@ -15,8 +15,9 @@ import (
 	"verif.local/kit"
 )
 
-func c11CachedTx(entry string, ctx context.Context, db *sql.DB, fn func(context.Context, sqlx.Session) error) error {
+func c11CachedTx(entry string, ctx context.Context, db *sql.DB, fn func(context.Context, sqlx.Session) error, bind func(sqlx.C11HistConn)) error {
 	cc := sqlc.NewConnWithCache(sqlx.NewConnFromDB(db), nil)
+	bind(c11CachedHist{cc})
 	if entry == "cachedctx" {
 		return cc.TransactCtx(ctx, fn)
 	}
@@ -48,7 +49,7 @@ func c11CachedQueryRun(c sqlx.C11RowsCase, db *sql.DB, v any) error {
 
 func TestVerif_C11_rowscached(t *testing.T) {
 	gen := sqlx.VerifC11GenRows([]string{"cached"})
-	kit.Run(t, "C11", "rows-cached", kit.Opts{Quick: 5000, Thorough: 240000},
+	kit.Run(t, "C11", "rows-cached", kit.Opts{Quick: 5000, Thorough: 160000},
 		func(rt *rapid.T) sqlx.C11RowsCase {
 			c := gen(rt)
 			c.Partial = false
